@@ -210,11 +210,17 @@ fn show_piped(r: &Result<Piped, PolynomialError>) -> String {
 // ------------------------------------------------------------------ evaluation (uninterpreted `!` as a fixed map)
 
 fn env(k: usize, name: &str) -> f64 {
-    let pts = [[1.3, 0.7], [0.45, 2.2], [2.6, 1.9], [0.8, 0.35]];
+    // points 0..3 are positive (every clause); 4..6 are used by the folding clause only: negative values and 0, where a
+    // rewrite such as (x^2)^0.5 -> x or x^1 handling differs from the unfolded expression
+    let pts = [[1.3, 0.7], [0.45, 2.2], [2.6, 1.9], [0.8, 0.35], [-3.0, -0.5], [-0.75, 2.5], [0.0, 0.0]];
+    let other = 0.6 + (name.bytes().map(|b| b as f64).sum::<f64>() * 0.173 + k as f64 * 0.31) % 1.7;
     match name {
         "x" => pts[k][0],
         "y" => pts[k][1],
-        _ => 0.6 + (name.bytes().map(|b| b as f64).sum::<f64>() * 0.173 + k as f64 * 0.31) % 1.7,
+        _ if k == 4 => -other,
+        _ if k == 5 => if name.len() % 2 == 0 { -other } else { other },
+        _ if k == 6 => 0.0,
+        _ => other,
     }
 }
 fn constant(c: &str) -> f64 {
@@ -683,7 +689,7 @@ fn judge(tokens: &[Token], p: &Piped, intended: Option<&R>, source: Option<&[Tok
         }
     }
     // (2) folding
-    for k in 0..4 {
+    for k in 0..7 {
         let mut big = 0.0;
         let want = eval(&p.unfolded, k, &mut big);
         if want.is_finite() {
@@ -1733,5 +1739,26 @@ fn generate_case_family(seed: u64, thorough: bool, emit: &mut dyn FnMut(String))
             ts.push(Token::RParen);
         }
         emit(format!("toks {}", words(&ts)));
+    }
+    // ---- (10) identity baits: expressions on which a plausible but unsound algebraic simplification could fire (power of a
+    //      power whose exponents multiply to 1 / 2 / 0.5, cancelling quotients and differences, products of powers, powers of
+    //      products, unary minus under a power); the folding clause evaluates folded and unfolded at positive, negative and
+    //      zero points, so a rewrite that is only valid for positive operands (sqrt(x^2) = x) or away from 0 (x/x = 1) is seen
+    let bases = ["x", "y", "(x - y)", "(x + 1)", "(-x)", "(x y)", "(2 x)", "sin(x)", "(x - 1.3)", "2", "pi"];
+    let exps: [(&str, &str); 14] = [("2", "0.5"), ("0.5", "2"), ("4", "0.25"), ("0.25", "4"), ("2", "2"), ("3", "2"), ("2", "1.5"), ("8", "0.125"),
+        ("1", "1"), ("2", "1"), ("1", "2"), ("10", "0.1"), ("0.2", "5"), ("2.5", "0.4")];
+    for b in bases {
+        for (m, n) in exps {
+            for text in [format!("{b}^{m}^{n}"), format!("({b}^{m})^{n}"), format!("{b}^({m}^{n})"), format!("{b}^{m} * {b}^{n}"), format!("{b}^{m} / {b}^{n}"),
+                format!("({b}^{m})^{n} - {b}"), format!("-{b}^{m}^{n}"), format!("y + {b}^{m}^{n} * 2")] {
+                emit(format!("str {}", req_string(&text)));
+            }
+        }
+        for text in [format!("{b} / {b}"), format!("{b} - {b}"), format!("{b} + {b}"), format!("{b} * {b}"), format!("0 / {b}"), format!("{b} ^ 1"), format!("1 ^ {b}"),
+            format!("{b} % {b}"), format!("{b} * 1 / {b}"), format!("({b} * y) / y"), format!("({b} + y) - y"), format!("({b} y)^2"), format!("(-{b})^2"), format!("-{b}^2"),
+            format!("{b}^2^0.5 + {b}"), format!("({b}^2)^0.5 / {b}"), format!("{b} * {b}^-1"), format!("{b}^-1^-1"), format!("0^{b}"), format!("{b}^0"), format!("0 * {b}"),
+            format!("{b} - 0"), format!("0 - {b}"), format!("{b} / 1"), format!("1 * {b}"), format!("{b}^0.5^2"), format!("({b}^0.5)^2")] {
+            emit(format!("str {}", req_string(&text)));
+        }
     }
 }
